@@ -172,6 +172,9 @@ type c04Inst struct {
 
 var c04GPName = [16]string{"AX", "CX", "DX", "BX", "SP", "BP", "SI", "DI", "R8", "R9", "R10", "R11", "R12", "R13", "R14", "R15"}
 
+// c04ChoiceOtherView: register choice in which two r8 operands are AL/AH-style views of one register.
+const c04ChoiceOtherView = 77
+
 func c04GP(i int, s reg.Spec) reg.Register {
 	return reg.GeneralPurpose.Lookup(reg.Index(i), s)
 }
@@ -499,6 +502,30 @@ func c04Instantiate(db *formsDB, seed uint64, row *formRow, choice, sfxIdx int) 
 		t := row.TypeNames[i]
 		var op operand.Op
 		regOf := func(mk func() reg.Register) operand.Op {
+			if choice == c04ChoiceOtherView && t == "r8" {
+				// the low and the high byte of ONE of AX..BX: same identity, different bytes
+				if pr, ok := prevByType[t]; ok {
+					if pr.Mask() == reg.S8L.Mask() {
+						return c04GP(int(pr.ID().Index()), reg.S8H)
+					}
+					return c04GP(int(pr.ID().Index()), reg.S8L)
+				}
+				g := r.intn(4)
+				var x reg.Register
+				if r.chance(1, 2) {
+					x = c04GP(g, reg.S8L)
+				} else {
+					x = c04GP(g, reg.S8H)
+				}
+				prevByType[t] = x
+				for j, q := range p.gp {
+					if q == g {
+						p.gp = append(p.gp[:j:j], p.gp[j+1:]...)
+						break
+					}
+				}
+				return x
+			}
 			if choice == 2 && !sameUsed {
 				if pr, ok := prevByType[t]; ok {
 					sameUsed = true
@@ -1055,6 +1082,16 @@ func init() {
 				off := r.intn(1 << 16)
 				for c := 0; c < n; c++ {
 					sels = append(sels, sel{row, c, (c + off) % max(1, len(row.Suffixes))})
+				}
+				// forms with two 8-bit register operands: additionally the two byte views of one register
+				n8 := 0
+				for _, t := range row.TypeNames {
+					if t == "r8" {
+						n8++
+					}
+				}
+				if n8 >= 2 {
+					sels = append(sels, sel{row, c04ChoiceOtherView, off % max(1, len(row.Suffixes))})
 				}
 			}
 		}
